@@ -533,8 +533,11 @@ def xyz2eq(xin, yin, zin, units="deg", stomp=False):
     if units == "deg":
         np.rad2deg(theta, theta)
         np.rad2deg(phi, phi)
-
-    atbound(theta, 0.0, 360.0)
+        atbound(theta, 0.0, 360.0)
+    else:
+        (w,) = np.where(theta < 0.0)
+        if w.size > 0:
+            theta[w] += 2.0 * PI
 
     # theta->ra, phi->dec
     return theta, phi
